@@ -381,4 +381,5 @@ if __name__ == "__main__":
     sys.path.insert(0, os.path.dirname(os.path.abspath(__file__)))
     sys.modules.setdefault("gen", sys.modules["__main__"])
     import gen_more  # noqa: F401  (registers more generators)
+    import gen_loops  # noqa: F401
     sys.exit(main())
